@@ -12,7 +12,9 @@
 
 vf_world W;
 uint8_t  vf_trace_bytes[VF_TRACE_BYTES];
-static uint8_t recvbuf[VF_NIFACE][VF_MAXMTU + 64];
+/* receive buffers are followed by 1 MiB of zeros so that, in the plain flavour, a walk driven by a
+ * wire counter of 0xFFFF stays inside harness memory (the san flavour uses exact heap blocks instead) */
+static uint8_t recvbuf[VF_NIFACE][VF_MAXMTU + (1u << 20)];
 
 /* core sections */
 extern uint8_t __start_core_bss[]  __attribute__((weak));
@@ -82,11 +84,10 @@ static int arena_free(void *p) {
     uint8_t *q = (uint8_t *)p;
     if (q < arena + 16 || q >= arena + AH.brk) return -1;
     uint32_t off = (uint32_t)(q - arena) - 16;
-    /* must be a block start: walk */
-    uint32_t o = 0; while (o < off) o += blk_span(((blk *)(arena + o))->size);
-    if (o != off) return -1;
+    if (off & 7u) return -1;
     blk *b = (blk *)(arena + off);
-    if (b->state != BLK_LIVE) return -2;
+    if (b->state != BLK_LIVE) return -2;                 /* not a block start, or already freed */
+    if (off + blk_span(b->size) > AH.brk) return -1;
     uint64_t can; memcpy(&can, arena + off + 16 + ((b->size + 7u) & ~7u), 8);
     if (can != CANARY) W.led.canary_bad++;
     b->state = BLK_FREE;
@@ -206,6 +207,7 @@ void lltd_port_sleep_ms(uint32_t ms) { trace_add(VF_T_SLEEP, 0, 0, NULL, ms); W.
 int lltd_port_send_frame(void *iface_ctx, const void *frame, size_t frame_len) {
     int idx = vf_ctx_index(iface_ctx);
     int fail = fp_point(VF_F_SEND);
+    W.sends_total++;
     /* reading the bytes here makes an over-long length visible to ASan / the canaries */
     trace_add(VF_T_SEND, idx < 0 ? 255 : idx, fail ? -1 : 0, frame, (uint32_t)frame_len);
     return fail ? -1 : 0;
@@ -351,7 +353,7 @@ const char *vf_station_name(int s) {
 static uint8_t icon_default[4096];
 static const uint8_t fname_default[] = { 'V', 0, 'e', 0, 'r', 0, 'i', 0, 'f', 0 };
 
-void vf_trace_clear(void) { W.ntrace = 0; W.trace_used = 0; W.trace_overflow = 0; }
+void vf_trace_clear(void) { W.ntrace = 0; W.trace_used = 0; W.trace_overflow = 0; W.sends_total = 0; }
 
 void vf_world_init(size_t mtu, int wifi, uint8_t fill) {
     memset(&W, 0, sizeof W);
@@ -397,7 +399,7 @@ void vf_world_reset(void) {
     memset(&W.fp, 0, sizeof W.fp);
     W.fp.sticky_kind = -1;
     (void)keep;
-    for (int i = 0; i < VF_NIFACE; i++) { memset(recvbuf[i], 0, sizeof recvbuf[i]); W.iface[i].recv_prev_len = 0; }
+    for (int i = 0; i < VF_NIFACE; i++) { memset(recvbuf[i], 0, VF_MAXMTU + 64); W.iface[i].recv_prev_len = 0; }
     W.cur_request = 0; W.in_tick = 0;
     vf_trace_clear();
 }
